@@ -490,3 +490,26 @@ Proof.
   exact (cnt_stack_grows ob bsem_none (builtin_ok_unspecified ob) (builtin_envs_unspecified ob) n rho s E2 E4 MI G Htr).
 Qed.
 End SessionOk.
+
+(* ============================================================ the model agrees (vm_compute) *)
+(* chains of 1, 5 and 50 thunks on the machine `vm_empty 8192` with the builtins loaded:
+   (high-water mark above the start, value, final sp) of (walk c) and of the twin *)
+Lemma measures_1 : measures 1 = Some ((9, CSym (S_ "done"), 0), (14, CSym (S_ "yes"), 0)).
+Proof. vm_compute. reflexivity. Qed.
+Lemma measures_5 : measures 5 = Some ((9, CSym (S_ "done"), 0), (34, CSym (S_ "yes"), 0)).
+Proof. vm_compute. reflexivity. Qed.
+Lemma measures_50 : measures 50 = Some ((9, CSym (S_ "done"), 0), (259, CSym (S_ "yes"), 0)).
+Proof. vm_compute. reflexivity. Qed.
+
+(* ============================================================ the concrete syntax *)
+Definition parses_to (src : text) (e : expr3) : Prop :=
+  match Parse.parse_text src with Ok (d, _) => d = cell_of3 e | _ => False end.
+Lemma programs_parse :
+  parses_to (S_ "(define walk (lambda (l) (if l (walk (l)) 'done)))"%string) walk_def /\
+  parses_to (S_ "(walk c)"%string) walk_call /\
+  parses_to (S_ "(define cnt (lambda (l) (if l ((lambda (r) r) (cnt (l))) 'done)))"%string) cnt_def /\
+  parses_to (S_ "(if (cnt c) 'yes 'no)"%string) cnt_top /\
+  parses_to (S_ "(define mk (lambda (t) (lambda () t)))"%string) mk_def /\
+  parses_to (S_ "(define c #f)"%string) c_def /\
+  parses_to (S_ "(set! c (mk c))"%string) c_step.
+Proof. vm_compute. repeat split. Qed.
